@@ -429,6 +429,20 @@ impl TTS {
         };
 
 
+        // The numbers come from preferences (Pitch, Volume, MathRate, CapitalLetters_Pitch, ...) that accept any float.
+        // A value that makes no sense (NaN, infinite, a rate <= 0%, a pitch change <= -100%) must not reach an attribute value
+        //   (e.g., "NaN%" or SAPI5's log scale giving "-inf"), so it is turned into "no change" or the nearest usable value.
+        if let TTSCommandValue::Number(number_value) = command.value {
+            let sanitized = match command.command {
+                TTSCommand::Rate => if number_value.is_finite() && number_value > 0.0 {number_value} else {100.0},
+                TTSCommand::Pitch => if number_value.is_finite() {number_value.max(-99.0)} else {0.0},
+                TTSCommand::Volume => if number_value.is_finite() {number_value} else {0.0},
+                TTSCommand::Pause => if number_value.is_finite() {number_value} else {0.0},
+                _ => number_value,
+            };
+            command.value = TTSCommandValue::Number(sanitized);
+        }
+
         // small optimization to avoid generating tags that do nothing
         if ((command.command == TTSCommand::Pitch || command.command == TTSCommand::Volume || command.command == TTSCommand::Pause) && command.value.get_num() == 0.0) ||
            (command.command == TTSCommand::Rate && command.value.get_num() == 100.0) {
@@ -579,7 +593,11 @@ impl TTS {
     }
 
     fn get_pause_multiplier(prefs: &PreferenceManager) -> f64 {
-        return prefs.pref_to_string("PauseFactor").parse::<f64>().unwrap_or(100.)/100.0;
+        // a pause can't be negative or infinitely long
+        return match prefs.pref_to_string("PauseFactor").parse::<f64>() {
+            Ok(factor) if factor.is_finite() && factor >= 0.0 => factor/100.0,
+            _ => 1.0,
+        };
     }
 
     /// Compute the length of the pause to use.
@@ -665,7 +683,7 @@ impl TTS {
         for cap in full_attr_re.captures_iter(str) {
             let mut amount = 0;
             for c in sub_attr_re.captures_iter(&cap[0]) {
-                amount = std::cmp::max(amount, c[1].parse::<usize>().unwrap());
+                amount = std::cmp::max(amount, c[1].parse::<usize>().unwrap_or(usize::MAX));   // absurdly long pause: too many digits for usize
             };
             merges_string = merges_string.replace(&cap[0], &replace_with(amount));
         }
